@@ -5,7 +5,7 @@ CONSTANTS
   MaxChange = 2
   Bug = "none"
   Emit = TRUE
-  Directed = FALSE
+  Directed = TRUE
   Shapes <- ShapesGen
-INVARIANTS EmitInv
+INVARIANTS EmitInv InvLaws
 CHECK_DEADLOCK FALSE
